@@ -7,6 +7,11 @@ NCPU = os.cpu_count() or 4
 GUARD = "cryptocorrosion_verif"
 BE_TARGET = "s390x-unknown-linux-gnu"
 I686_TARGET = "i686-unknown-linux-gnu"
+PPC_TARGET = "powerpc-unknown-linux-gnu"      # big-endian AND 32-bit
+ARM_TARGET = "arm-unknown-linux-gnueabi"      # 32-bit, little-endian, not x86 (cfg(target_arch) paths)
+A64_TARGET = "aarch64-unknown-linux-gnu"      # 64-bit, little-endian, not x86
+BIG_ENDIAN_TARGETS = (BE_TARGET, PPC_TARGET)
+FOREIGN_TARGETS = (BE_TARGET, I686_TARGET, PPC_TARGET, ARM_TARGET, A64_TARGET)
 BASE_RUSTFLAGS = "--cfg zerocopy_derive_union_into_bytes --cfg " + GUARD + " -A unexpected_cfgs -A deprecated -A unused"
 
 
@@ -318,7 +323,8 @@ prop(
         Leg("nostd-avx2", "release", "chacha_stream", "C02", 100000, 2000000),
     ],
     [REAL, STUB],
-    be_host={"quick": (1, "cipher"), "thorough": (6, "cipher")},
+    be_host={"quick": [(BE_TARGET, 1, "cipher"), (PPC_TARGET, 1, "cipher"), (ARM_TARGET, 1, "cipher")],
+             "thorough": [(BE_TARGET, 6, "cipher"), (PPC_TARGET, 3, "cipher"), (ARM_TARGET, 3, "cipher"), (A64_TARGET, 3, "cipher"), (I686_TARGET, 3, "cipher")]},
     huge=[
         dict(what="cipher:XChaCha20", len=4 * (1 << 30) + 3, pre=27),
         dict(what="cipher:ChaCha20", len=2 * (1 << 30) + 5),
@@ -361,7 +367,8 @@ prop(
         Leg("nostd-avx2", "release", "chacha_stream", "C11", 100000, 2000000),
     ],
     [REAL, STUB],
-    be_host={"quick": (1, "cipher"), "thorough": (6, "cipher")},
+    be_host={"quick": [(BE_TARGET, 1, "cipher"), (PPC_TARGET, 1, "cipher"), (ARM_TARGET, 1, "cipher")],
+             "thorough": [(BE_TARGET, 6, "cipher"), (PPC_TARGET, 3, "cipher"), (ARM_TARGET, 3, "cipher"), (A64_TARGET, 3, "cipher"), (I686_TARGET, 3, "cipher")]},
     # requests longer than everything that is left (up to 2^38 + 1 bytes in ONE slice of untouched zero pages) must be
     # refused at once and atomically; a watchdog catches an acceptance
     huge=[
@@ -401,7 +408,8 @@ prop(
     ],
     [REAL, STUB],
     cross=[Cross("chacha_block", "C14", "checked", 40000, 400000, QUICK_FIXED, ALL_FIXED, max_ops=32)],
-    be_host={"quick": (2, "block,cipher"), "thorough": (12, "block,cipher")},
+    be_host={"quick": [(BE_TARGET, 2, "block,cipher"), (PPC_TARGET, 1, "block,cipher"), (ARM_TARGET, 1, "block,cipher"), (A64_TARGET, 1, "block"), (I686_TARGET, 1, "block")],
+             "thorough": [(BE_TARGET, 12, "block,cipher"), (PPC_TARGET, 6, "block,cipher"), (ARM_TARGET, 6, "block,cipher"), (A64_TARGET, 6, "block,cipher"), (I686_TARGET, 6, "block,cipher")]},
     # double-round counts far beyond the sweep (the statement says "any number of double rounds"): `len` is the starting counter
     huge=[
         dict(what="rounds:2147483648", len=0xfffffffe),
@@ -436,12 +444,16 @@ prop(
         Leg("nostd-avx", "release", "chacha_block", "C15", 0, 1000000, max_ops=32),
     ],
     [REAL, STUB],
+    # set/get round trips, the untouched other parameter, equality with a directly created state and the two predicates, asserted
+    # on the foreign hosts themselves (portable backend; the counter helpers of guts.rs are cfg(target_endian) code)
+    be_host={"quick": [(BE_TARGET, 2, "params"), (PPC_TARGET, 2, "params"), (ARM_TARGET, 1, "params"), (I686_TARGET, 1, "params")],
+             "thorough": [(BE_TARGET, 20, "params"), (PPC_TARGET, 20, "params"), (ARM_TARGET, 10, "params"), (I686_TARGET, 10, "params"), (A64_TARGET, 10, "params")]},
 )
 
 prop(
     "C08",
     "exploration",
-    "one case = one seeded run: 1-8 interleaved instances of the 15 hash types (+9 further Skein output sizes) on one simulated host, <=30 operations "
+    "one case = one seeded run: 1-8 interleaved instances of the 15 hash types (+18 further Skein output sizes) on one simulated host, <=30 operations "
     "(update/chain with pieces aimed at every buffer fill level: 0, 1, b-f-1, b-f, b-f+1, b, 2b-1, 2b, 2b+1, k*b+r, padding boundaries, sometimes up to 64 KiB; "
     "clone; reset; finalize_reset (both trait paths); finalize; drop), every remaining instance finalised at the end; each digest compared with the same type's "
     "one-shot digest of the bytes the model says were absorbed. distinct_nontrivial = distinct abstract states (type, fill class, op kind, piece class, history flags)",
@@ -523,7 +535,9 @@ prop(
     ],
     # (the lane-level vector programs are not compared on the big-endian host: their storage-conversion loads are a
     # native-memory pun by design; the byte-I/O programs - vecopsb - are)
-    be_host={"quick": [(BE_TARGET, 1, "cipher,jh1,vecopsb"), (I686_TARGET, 1, "vecops,vecopsb")], "thorough": [(BE_TARGET, 2, "block,cipher,hash,vecopsb"), (I686_TARGET, 3, "cipher,vecops,vecopsb")]},
+    be_host={"quick": [(BE_TARGET, 1, "cipher,jh1,vecopsb"), (I686_TARGET, 1, "vecops,vecopsb"), (PPC_TARGET, 1, "jh1,vecopsb,block"), (ARM_TARGET, 1, "jh1,vecops,vecopsb")],
+             "thorough": [(BE_TARGET, 2, "block,cipher,hash,vecopsb"), (I686_TARGET, 3, "cipher,hash,vecops,vecopsb"), (PPC_TARGET, 2, "block,cipher,hash,vecopsb"),
+                          (ARM_TARGET, 2, "block,cipher,hash,vecops,vecopsb"), (A64_TARGET, 2, "block,cipher,hash,vecops,vecopsb")]},
 )
 
 
@@ -641,7 +655,7 @@ prop(
     selftest=True,
     # the same jumped-counter operations on hosts with another word size / byte order (Miri): a 32-bit usize must still
     # count 2^32 bits
-    be_host={"quick": [(I686_TARGET, 1, "counters")], "thorough": [(I686_TARGET, 3, "counters"), (BE_TARGET, 1, "counters")]},
+    be_host={"quick": [(I686_TARGET, 1, "counters"), (PPC_TARGET, 1, "counters")], "thorough": [(I686_TARGET, 3, "counters"), (BE_TARGET, 1, "counters"), (PPC_TARGET, 2, "counters"), (ARM_TARGET, 2, "counters")]},
 )
 
 
@@ -943,7 +957,10 @@ def be_dirs():
     return bdir, mpath, tag
 
 
-HOST_DESCR = {BE_TARGET: "big-endian 64-bit host (s390x build interpreted by Miri)", I686_TARGET: "32-bit host (i686 build interpreted by Miri: usize is 32 bits)"}
+HOST_DESCR = {BE_TARGET: "big-endian 64-bit host (s390x build interpreted by Miri)", I686_TARGET: "32-bit host (i686 build interpreted by Miri: usize is 32 bits)",
+              PPC_TARGET: "big-endian 32-bit host (powerpc build interpreted by Miri)", ARM_TARGET: "32-bit ARM host (arm build interpreted by Miri)",
+              A64_TARGET: "AArch64 host (aarch64 build interpreted by Miri)"}
+HOST_NAME = {BE_TARGET: "big-endian host", I686_TARGET: "32-bit host", PPC_TARGET: "big-endian 32-bit host", ARM_TARGET: "32-bit ARM host", A64_TARGET: "AArch64 host"}
 
 
 def be_sysroot(target=BE_TARGET):
@@ -980,15 +997,15 @@ def run_be_layer(pid, spec_be, tier, sd, replay_dir, results, violations, known)
     interpreting an s390x build; transcripts must be identical; the refill4 = 4 x refill assertions run on the host itself."""
     entry = spec_be[tier]
     if isinstance(entry, list):
-        n = 0
-        for (target, scale, sections) in entry:
-            n += run_be_layer(pid, {tier: (scale, sections, target)}, tier, sd, replay_dir, results, violations, known)
-        return n
+        from concurrent.futures import ThreadPoolExecutor
+        with ThreadPoolExecutor(max_workers=len(entry)) as ex:  # one interpreter process per foreign host, side by side
+            ns = list(ex.map(lambda e: run_be_layer(pid, {tier: (e[1], e[2], e[0])}, tier, sd, replay_dir, results, violations, known), entry))
+        return sum(ns)
     target = entry[2] if len(entry) > 2 else BE_TARGET
     scale, sections = entry[0], entry[1]
     if not sections:
         return 0
-    hostname = "big-endian host" if target == BE_TARGET else "32-bit host"
+    hostname = HOST_NAME[target]
     t0 = time.time()
     rc_le, out_le, err_le = be_run(sd, scale, sections, False)
     if rc_le != 0:
@@ -1015,7 +1032,7 @@ def run_be_layer(pid, spec_be, tier, sd, replay_dir, results, violations, known)
     le = [l for l in out_le.splitlines() if l.startswith("T ")]
     be = [l for l in out_be.splitlines() if l.startswith("T ")]
     endian = [l for l in out_be.splitlines() if l.startswith("ENDIAN")]
-    if endian != [("ENDIAN big" if target == BE_TARGET else "ENDIAN little")]:
+    if endian != [("ENDIAN big" if target in BIG_ENDIAN_TARGETS else "ENDIAN little")]:
         log(err_be[-2000:])
         raise HarnessError("the %s did not start (%s)" % (hostname, endian))
     diffs = {}
@@ -1054,7 +1071,7 @@ def run_be_layer(pid, spec_be, tier, sd, replay_dir, results, violations, known)
         seen.add(sig)
         f = dict(kind="miri_be", verif_seed=sd, scale=scale, sections=sections, target=target, ops=[], minimised_from=len(le),
                  violation=dict(properties=[pid], invariant="B1", signature=sig, at_op=0, detail=detail))
-        path = os.path.join(replay_dir, "%s-%s-%s.json" % (pid, "be" if target == BE_TARGET else "i686", hashlib.sha1(sig.encode()).hexdigest()[:8]))
+        path = os.path.join(replay_dir, "%s-%s-%s.json" % (pid, "be" if target == BE_TARGET else target.split("-")[0], hashlib.sha1(sig.encode()).hexdigest()[:8]))
         json.dump(f, open(path, "w"))
         f["replay"] = path
         kf = open_finding_for(pid, sig)
@@ -1793,7 +1810,7 @@ def setup():
             log(err)
             print("HARNESS-ERROR: reference-model self-test failed in %s/%s" % (hb, profile))
             return 2
-    # interpreters: Miri sysroots (x86-64 host target and the big-endian s390x target) and the small Miri binaries
+    # interpreters: Miri sysroots (x86-64 host target and the five foreign targets) and the small Miri binaries
     try:
         miri_native()
         rc, out = miri_mem_run(1, 64, 1, 2, part=0)
@@ -1803,11 +1820,12 @@ def setup():
             return 2
         rc_le, out_le, err_le = be_run(1, 1, "cipher", False)
         rc_be, out_be, err_be = be_run(1, 1, "cipher", True)
-        rc_32, out_32, err_32 = be_run(1, 1, "cipher", True, I686_TARGET)
-        if rc_32 != 0:
-            log(err_32[-1500:])
-            print("HARNESS-ERROR: the 32-bit host (Miri, %s) could not be started" % I686_TARGET)
-            return 2
+        for tgt in FOREIGN_TARGETS[1:]:
+            rc_32, out_32, err_32 = be_run(1, 1, "cipher", True, tgt)
+            if rc_32 != 0:
+                log(err_32[-1500:])
+                print("HARNESS-ERROR: the %s (Miri, %s) could not be started" % (HOST_NAME[tgt], tgt))
+                return 2
         if rc_le != 0 or rc_be != 0:
             log(err_le[-1500:] + err_be[-1500:])
             print("HARNESS-ERROR: the big-endian host (Miri, %s) could not be started" % BE_TARGET)
